@@ -24,6 +24,8 @@ int main()
    std::map<const Node*, std::string> token;
    std::vector<std::shared_ptr<Substitution>> subs;   // shared_ptr: Substitution has no virtual destructor
    std::vector<impl::General_substitution*> gens;
+   std::vector<std::pair<const ipr::Instantiation*, std::size_t>> instantiations;
+   unsigned long bind_count = 0;
 
    auto param = [&](const std::string& t) -> const Parameter* {
       if (t.size() < 2 or t[0] != 'p') return nullptr;
@@ -106,8 +108,13 @@ int main()
             auto p = param(a); auto v = expr(b);
             if (p == nullptr or v == nullptr) { std::cout << "bad-op\n"; continue; }
             // through the factory a client uses (the Lexicon owns the node); every third one constructed directly
+            // a value that IS a parameter is passed with that static type (the way a client holding a `const Parameter&` calls it),
+            // every other value as the expression it is
+            const Parameter* as_param = b[0] == 'p' ? static_cast<const Parameter*>(v) : nullptr;
             if (subs.size() % 3 == 2)
                subs.push_back(std::make_shared<impl::Elementary_substitution>(*p, *v));
+            else if (as_param != nullptr and subs.size() % 2 == 0)
+               subs.push_back(std::shared_ptr<Substitution>(lx.make_elementary_substitution(*p, *as_param), [](Substitution*) { }));
             else
                subs.push_back(std::shared_ptr<Substitution>(lx.make_elementary_substitution(*p, *v), [](Substitution*) { }));
             gens.push_back(nullptr);
@@ -131,8 +138,21 @@ int main()
             auto k = std::stoul(a.substr(1));
             auto p = param(b); auto v = expr(c);
             if (k >= subs.size() or gens[k] == nullptr or p == nullptr or v == nullptr) { std::cout << "bad-op\n"; continue; }
-            auto& r = gens[k]->subst(*p, *v);
+            auto& r = (c[0] == 'p' and bind_count++ % 2 == 0) ? gens[k]->subst(*p, *static_cast<const Parameter*>(v)) : gens[k]->subst(*p, *v);
             std::cout << "ok\n" << "@self=" << (&r == gens[k] ? 1 : 0) << '\n';
+         }
+         else if (op == "inst") {
+            // the substitution is handed to make_instantiation (which may keep it any way it likes) and read through the node; the
+            // client goes on binding and asking its own substitution afterwards
+            auto k = std::stoul(a.substr(1));
+            if (k >= subs.size()) { std::cout << "bad-op\n"; continue; }
+            auto* node = lx.make_instantiation(*vals.at(0), *subs[k]);
+            const bool same_answers = [&] {
+               for (auto* q : params) if (&node->substitution()[*q] != &(*subs[k])[*q]) return false;
+               return true;
+            }();
+            instantiations.emplace_back(node, k);
+            std::cout << "ok\n@instantiation_reads_the_substitution=" << (same_answers ? 1 : 0) << '\n';
          }
          else if (op == "app") {
             auto k = std::stoul(a.substr(1));
